@@ -146,7 +146,7 @@ def run_model(model, T, dt, dts=None, solver="euler", vectorize=False, backend="
     return df, outputs, tpl
 
 
-def check_fixed_step_run(model, T, dt, dts, solver, vectorize, cutoff=0.0):
+def check_fixed_step_run(model, T, dt, dts, solver, vectorize, cutoff=0.0, only_vars=None):
     """C03-B: rows, index, first row, values == spec iterates, cutoff."""
     fails = []
     try:
@@ -167,6 +167,8 @@ def check_fixed_step_run(model, T, dt, dts, solver, vectorize, cutoff=0.0):
         fails.append(dict(clause="run: index holds the times k*sampling step", observed=list(map(float, df.index[:4])),
                           expected=list(map(float, times[use][:4]))))
     for key, path in outputs.items():
+        if only_vars is not None and path not in only_vars:
+            continue
         got = np.asarray(df[key], dtype=float).reshape(len(df.index), -1)[:, 0]
         want = ref[path][use] if len(use) else np.zeros(0)
         if len(want) < len(use):
